@@ -82,7 +82,8 @@ Record sysview := mkSys {
 (** contract/name *)
 Record nameview := mkName {
   nv_balance : Z; nv_price : Z;
-  nv_names : list (str * str) }.           (* raw name maps by name; absent = no entry *)
+  nv_names : list (str * str);             (* raw name maps by name (current data); absent = no entry *)
+  nv_names0 : list (str * str) }.          (* the same at the start of the block (GetInitialData) *)
 
 (** contract/enterprise; conf records are kept deserialised (on, values) *)
 Record entview := mkEnt {
@@ -435,6 +436,8 @@ Section Model.
     end.
 
   Definition get_name_map (nv : nameview) (name : str) := deserialize_name_map (assoc name (nv_names nv)).
+  (** getNameMap(scs, name, useInitial = true): UpdateName / GetAddress read the block's initial data *)
+  Definition get_name_map0 (nv : nameview) (name : str) := deserialize_name_map (assoc name (nv_names0 nv)).
 
   Definition is_special (a : str) : bool := mem_str a special_accounts.
 
@@ -485,12 +488,12 @@ Section Model.
       nameArg <- assert_str ("name.ExecuteNameTx", "assert", "ci.Args[0].(string)") a0 ;;
       a1 <- index ("name.ExecuteNameTx", "index", "ci.Args[1]") (ci_args ci) 1 ;;
       toArg <- assert_str ("name.ExecuteNameTx", "assert", "ci.Args[1].(string)") a1 ;;
-      m <- get_name_map nv nameArg ;;
+      m <- get_name_map0 nv nameArg ;;
       let dest := match m with Some (_, d) => d | None => [] end in
       if Nat.leb (List.length dest) NameLength then Err ENotCreated else
       let d := match decode_address toArg with Some a => a | None => [] end in
       if Nat.eqb (List.length d) AddressLength || is_special d then Ok tt
-      else _ <- get_name_map nv d ;; Ok tt
+      else _ <- get_name_map0 nv d ;; Ok tt
     else if str_eqb (ci_name ci) (s "v1setOwner") then
       a0 <- index ("name.ExecuteNameTx", "index", "ci.Args[0]") (ci_args ci) 0 ;;
       ownerArg <- assert_str ("name.ExecuteNameTx", "assert", "ci.Args[0].(string)") a0 ;;
@@ -789,7 +792,8 @@ Section Model.
 
   Definition sys_wf (sv : sysview) : bool :=
     staking_wf (sv_staking_raw sv) && forallb (fun kv => vote_ex_wf (snd kv)) (sv_votes_dao sv).
-  Definition name_wf (nv : nameview) : bool := forallb (fun kv => name_map_wf (snd kv)) (nv_names nv).
+  Definition name_wf (nv : nameview) : bool :=
+    forallb (fun kv => name_map_wf (snd kv)) (nv_names nv) && forallb (fun kv => name_map_wf (snd kv)) (nv_names0 nv).
   Definition conf_wf (kc : str * conf) : bool :=
     if str_eqb (fst kc) c_rpc then forallb (fun v => Nat.leb 2 (rpc_parts v)) (snd (snd kc)) else true.
   Definition ent_wf (ev : entview) : bool := forallb conf_wf (ev_confs ev).
